@@ -5,6 +5,7 @@ import (
 	"encoding/base64"
 	"encoding/json"
 	"fmt"
+	"math"
 	"os"
 	"path/filepath"
 	"runtime"
@@ -115,6 +116,23 @@ func hostileSeeds() []hSeed {
 		add("jls8-lse", "jpeg", ".80", withLSE(mustEnc(jlsl.Encode(img(9, 6, 1, 8, "runs"), 9, 6, 1, 8)), 255, 3, 7, 21), 9, 6, 8, 8, 1)
 		add("jlsnear16-lse", "jpeg", ".81", withLSE(mustEnc(jlsn.Encode(img(5, 6, 3, 16, "noise"), 5, 6, 3, 16, 3)), 65535, 27, 82, 297), 5, 6, 16, 16, 3)
 		add("ref-420-dri", "jpeg", ".50", ref.BaselineEncode(img(19, 11, 3, 8, "smooth"), 19, 11, 3, ref.BaselineOptions{Quality: 70, HY: 2, VY: 2, DRI: 1, App: "jfif", Optimise: true}), 19, 11, 8, 8, 3)
+		{
+			// AC coefficients after long zero runs (ZRL symbols): the highest-frequency basis
+			// function plus a DC offset, at a quality that keeps it
+			zr := make([]byte, 16*8)
+			for y := 0; y < 8; y++ {
+				for x := 0; x < 16; x++ {
+					v := 128.0 + 100*math.Cos(float64(2*x+1)*7*math.Pi/16)*math.Cos(float64(2*y+1)*7*math.Pi/16)
+					zr[y*16+x] = byte(v)
+				}
+			}
+			zr12 := make([]int, 16*8)
+			for i, v := range zr {
+				zr12[i] = int(v) * 16
+			}
+			add("extended12-zrl", "jpeg", ".51", mustEnc(extended.Encode(gen.Pack(zr12, 12), 16, 8, 1, 12, 95)), 16, 8, 16, 12, 1)
+			add("ref-zrl", "jpeg", ".50", ref.BaselineEncode(zr, 16, 8, 1, ref.BaselineOptions{Quality: 95, App: "jfif"}), 16, 8, 8, 8, 1)
+		}
 		{
 			comps := deinterleave(gen.Content(r, "noise", 5, 4, 3, 10, 0), 3)
 			tabs := map[int]ref.HuffSpec{1: ref.LumDC17(), 3: ref.RandomHuff(r.Intn, 16)}
